@@ -1,20 +1,11 @@
-//! impl driver: reads case lines "<stream> <op> <args...>" on stdin, prints one
-//! result line per case.  Every case runs under catch_unwind; a panic is printed
-//! as "Panic" (the model predicts panics explicitly, DESIGN 3.2).
-mod name;
-mod util;
-
+//! Generic main loop of an impl driver: reads case lines "<stream> <op> <args...>"
+//! on stdin, prints one result line per case.  Every case runs under
+//! catch_unwind; a panic is printed as "Panic" (the model predicts panics
+//! explicitly, DESIGN 3.2).
 use std::io::{BufRead, Write};
 use std::panic::{catch_unwind, AssertUnwindSafe};
 
-fn dispatch(stream: &str, toks: &[&str]) -> String {
-    match stream {
-        "name" => name::handle(toks),
-        _ => "IMPL-EXN:unknown-stream".to_string(),
-    }
-}
-
-fn main() {
+pub fn run(dispatch: impl Fn(&str, &[&str]) -> String) {
     std::panic::set_hook(Box::new(|_| {}));
     let stdin = std::io::stdin();
     let stdout = std::io::stdout();
